@@ -571,6 +571,16 @@ theorem C16_linesearch_nan_candidate (env : Env V (XR K)) (v : V) (M : XR K)
   rw [hz]
   exact xr_not_nan_le _
 
+/-- Conversely an *accepted* candidate lies in the domain of the loss: if `LineSearchStepSize.update` ends on an accepted value
+    (not on "budget exhausted"), then `f` at the new iterate `x_step(v, L')` of `PGM.step` is not NaN — whatever the loss, also
+    when earlier candidates were outside (`C16_linesearch_nan_candidate`: they are rejected and `L` is increased). -/
+theorem C16_linesearch_accepted_in_domain (env : Env V (XR K)) (v : V) (M : XR K) (h : Accept env v M) :
+    env.f (xstep env v M) ≠ nan ∧ fquad env (xstep env v M) v M ≠ nan := by
+  unfold Accept at h
+  constructor
+  · intro hz; rw [hz] at h; exact xr_not_nan_le _ h
+  · intro hq; rw [hq] at h; exact xr_not_le_nan _ h
+
 /-- … and when the current point itself is outside the domain (`f(v)` NaN) no value is accepted: `LineSearchStepSize.update`
     tries `maxiter` candidates and returns the last value tried, `L·γ_u^(maxiter−1)`. -/
 theorem C16_linesearch_nan_point (env : Env V (XR K)) (γu : XR K) (maxiter : Nat) (x v : V) (L L' : XR K)
